@@ -6,8 +6,18 @@ namespace {
 
 void app_cb(void *p) { if (g_sim) { Event e; e.k = EV_APPTMR; e.tick = g_sim->tick; e.a = (uint32_t)(uintptr_t)p; e.b = 0; g_sim->ev.push_back(e); } }
 
+// mode write-from-client-callback: the application rewrites 1017h through the dictionary API from inside the completion callback of an SDO client
+// transfer - which runs inside a timer step (timeout), inside the handling of a received frame (answer) or inside an NMT reset (transfer given up)
+struct HbWrite { bool armed = false, fired = false; uint16_t ms = 0; uint32_t ticks = 0; CO_ERR err = CO_ERR_NONE; } g_hbw;
+uint8_t g_csbuf[4];
+void hbw_done(CO_CSDO *cs, uint16_t i, uint8_t sub, uint32_t code) {
+  (void)i; (void)sub; (void)code;
+  if (!g_hbw.armed) return;
+  g_hbw.armed = false; g_hbw.fired = true; g_hbw.err = CODictWrWord(&cs->Node->Dict, CO_DEV(0x1017, 0), g_hbw.ms);
+}
+
 void case_impl(Ctx &c, bool tight) {
-  Sim s(c); World w(s);
+  Sim s(c); World w(s); const bool cbw = c.param == 1; g_hbw = HbWrite();
   s.nodeid = (uint8_t)(1 + c.t.below(127));
   // mode tight-pool: a timer pool that the concurrent users can fill completely (2..7 slots; SYNC producer + heartbeat need 2 at start-up)
   if (tight) s.ntmr = (uint16_t)(2 + c.t.below(6));
@@ -27,12 +37,23 @@ void case_impl(Ctx &c, bool tight) {
   w.add_int(0x2100, 1, 1, false, false, true, true, 0, true, true);   // async-trigger object mapped into the TPDO
   add_tpdo(w, 0, 0x40000180u + s.nodeid, 254, c.t.coin() ? (uint16_t)(10 * (1 + c.t.below(5)) * (s.freq == 100 ? 10 : 1)) : 0, c.t.coin() ? (uint16_t)((1 + c.t.below(8)) * (s.freq == 100 ? 10 : 1)) : 0, {MAPENT(0x2100, 1, 8)});
   add_hbcons(w, {{(uint8_t)(s.nodeid == 9 ? 10 : 9), (uint16_t)(50 * (s.freq == 100 ? 10 : 1))}});
+  if (cbw) { s.add(CO_KEY(0x1280, 0, CO_OBJ_D___R_), CO_TUNSIGNED8, 3); s.add(CO_KEY(0x1280, 1, CO_OBJ_____RW), CO_TUNSIGNED32, (CO_DATA)s.var<uint32_t>("1280:1", 0x600 + 0x30));
+    s.add(CO_KEY(0x1280, 2, CO_OBJ_____RW), CO_TUNSIGNED32, (CO_DATA)s.var<uint32_t>("1280:2", 0x580 + 0x30)); s.add(CO_KEY(0x1280, 3, CO_OBJ_____RW), CO_TUNSIGNED8, (CO_DATA)s.var<uint8_t>("1280:3", 0x30)); }
   w.finish();
   SdoClient cl(s, w.req[0], w.rsp[0]);
   VLOG(c, "node %u, %u Hz, heartbeat period %u ticks (%u ms)", s.nodeid, s.freq, P, ms_of_ticks(P));
   long due = P ? (long)P : -1;     // armed at initialisation (tick 0)
   int mode = 2;                    // 2 PREOP, 3 OP, 4 STOP
-  int hb_seen = 0; bool interfered = false; int hb_after_interference = 0;
+  int hb_seen = 0; bool interfered = false; int hb_after_interference = 0; int cbwrites = 0, cbwrites_in_reset = 0;
+  // the write made by the completion callback takes effect at the moment the callback runs
+  auto callback_write = [&](const char *where) -> bool {
+    if (!g_hbw.fired) return false;
+    g_hbw.fired = false; cbwrites++;
+    CHECK(c, g_hbw.err == CO_ERR_NONE, "hb-write-accepted", "CODictWrWord(1017h, %u ms) from inside the SDO client completion callback (%s) failed with %d", g_hbw.ms, where, g_hbw.err);
+    P = g_hbw.ticks; due = P ? s.tick + (long)P : -1; CONodeGetErr(s.node);
+    VLOG(c, "   completion callback (%s) at tick %ld: 1017h := %u ms (%u ticks)", where, s.tick, g_hbw.ms, P);
+    return true;
+  };
   int apptm[4] = {-1, -1, -1, -1}; bool appcyclic[4] = {false, false, false, false};
   const uint32_t HBID = 0x700u + s.nodeid;
   auto no_hb_outside_tick = [&](const char *what) {
@@ -44,6 +65,7 @@ void case_impl(Ctx &c, bool tight) {
     s.step_tick();
     long T = s.tick;
     int expect = 0; if (due == T) { expect = 1; due = T + P; }
+    bool tie = callback_write("timeout, inside the timer step") && expect;   // the heartbeat due in the very step in which the callback rewrites the time: sent before the write, or cancelled by it
     int got = 0;
     for (auto &t : s.tx) if (t.id == HBID) {
       got++;
@@ -51,6 +73,7 @@ void case_impl(Ctx &c, bool tight) {
       CHECK(c, t.dlc == 1 && t.d[0] == st, "hb-content", "heartbeat at tick %ld is %s, expected one byte %02X (the current NMT state)", T, t.str().c_str(), st);
     }
     VLOG(c, "tick %ld: %d heartbeat(s)%s", T, got, expect ? " (due)" : "");
+    if (tie && got <= 1) expect = got;
     CHECK(c, got == expect, expect ? (got ? "hb-duplicated" : "hb-suppressed-or-shifted") : "hb-only-when-due", "tick %ld: %d heartbeat frame(s), %d expected (period %u ticks, next due at tick %ld)", T, got, expect, P, expect ? T : due);
     if (got) { hb_seen++; if (interfered) hb_after_interference++; }
     for (auto &e : s.ev) if (e.k == EV_APPTMR) { int k = (int)e.a; if (k >= 0 && k < 4 && !appcyclic[k]) apptm[k] = -1; }   // fired one-shot: no longer owned
@@ -59,8 +82,8 @@ void case_impl(Ctx &c, bool tight) {
   int steps = 0;
   while (!c.t.exhausted() && steps < 300) {
     steps++; c.ops++;
-    static const uint16_t W[15] = {60, 14, 10, 10, 6, 6, 6, 6, 6, 8, 4, 4, 4, 6, 5};
-    uint32_t op = c.t.weighted(W);
+    static const uint16_t W[15] = {60, 14, 10, 10, 6, 6, 6, 6, 6, 8, 4, 4, 4, 6, 5}, WC[17] = {60, 14, 8, 8, 3, 3, 3, 3, 3, 4, 4, 2, 2, 4, 10, 16, 8};
+    uint32_t op = cbw ? c.t.weighted(WC) : c.t.weighted(W);
     s.clear_tx();
     switch (op) {
       case 0: one_tick(); break;
@@ -115,9 +138,24 @@ void case_impl(Ctx &c, bool tight) {
         CHECK(c, boot == 1, "reset-bootup", "%d boot-up frames after NMT reset", boot);
         s.clear_tx();
         VLOG(c, "NMT reset (%u) at tick %ld", cs, s.tick);
+        if (callback_write("transfer given up by the NMT reset")) cbwrites_in_reset++;
         due = P ? s.tick + (long)P : -1; interfered = true;
         for (int k = 0; k < 4; k++) (void)k;   // application timers keep running
         break;
+      }
+      case 15: {  // the application starts an SDO client transfer whose completion callback will rewrite 1017h
+        if (mode == 4) break;
+        s.api_begin(); CO_CSDO *cs = COCSdoFind(s.node, 0); s.api_end("COCSdoFind"); if (!cs || g_hbw.armed) break;
+        uint32_t np = c.t.chance(50) ? 0 : gen_ticks(); g_hbw.ticks = np; g_hbw.ms = ms_of_ticks(np); g_hbw.armed = true;
+        uint32_t tmo = (1 + c.t.below(30)) * (s.freq == 100 ? 10 : 1);
+        s.api_begin(); CO_ERR e = COCSdoRequestUpload(cs, CO_DEV(0x2000, 1), g_csbuf, 4, hbw_done, tmo); s.api_end("COCSdoRequestUpload");
+        VLOG(c, "SDO client request (timeout %u ms) -> %d; its completion callback will write %u ms to 1017h", tmo, (int)e, g_hbw.ms);
+        if (e != CO_ERR_NONE) g_hbw.armed = false;
+        interfered = true; no_hb_outside_tick("an SDO client request"); break;
+      }
+      case 16: {  // the SDO server of the other node answers the client
+        s.rx(Frame::mk(0x580u + 0x30, 8, {0x43, 0x00, 0x20, 0x01, 1, 2, 3, 4})); VLOG(c, "answer for the SDO client");
+        callback_write("answer received"); interfered = true; no_hb_outside_tick("the answer to an SDO client request"); break;
       }
       default: { uint8_t other = (uint8_t)(s.nodeid == 9 ? 10 : 9); static const uint8_t ST[4] = {0, 127, 5, 4}; s.rx(Frame::mk(0x700u + other, 1, {ST[c.t.below(4)]})); VLOG(c, "heartbeat of monitored node %u", other); interfered = true; no_hb_outside_tick("a consumed heartbeat"); break; }
     }
@@ -125,6 +163,7 @@ void case_impl(Ctx &c, bool tight) {
   if (hb_seen >= 3 && hb_after_interference >= 1) c.nontrivial = true;
   c.cls(P ? "hb-on-at-end" : "hb-off-at-end");
   if (hb_seen >= 3) c.cls("three-or-more-heartbeats");
+  if (cbwrites) c.cls("1017h-written-from-the-client-completion-callback"); if (cbwrites_in_reset) c.cls("1017h-written-from-the-callback-inside-an-nmt-reset");
   char f[32]; snprintf(f, sizeof f, "freq-%u", s.freq); c.cls(f);
 }
 
@@ -133,12 +172,13 @@ void tight_case(Ctx &c) { case_impl(c, true); }
 
 Registrar reg(Prop{
     "C10",
-    "Cases: node id 1..127, timer frequency in {100, 1000, 10000} Hz, initial 1017h 0 or a whole number of ticks (1..200 ticks), concurrent timer users (SYNC producer on/off, an event-driven TPDO with inhibit/event time, a heartbeat consumer, up to 4 application timers); mode tight-pool: the same with a timer pool of 2..7 slots which these users can fill completely - a running producer re-uses its slot, so rewriting 1017h must succeed with a full pool; only switching the producer on with a full pool may be refused; "
+    "Cases: node id 1..127, timer frequency in {100, 1000, 10000} Hz, initial 1017h 0 or a whole number of ticks (1..200 ticks), concurrent timer users (SYNC producer on/off, an event-driven TPDO with inhibit/event time, a heartbeat consumer, up to 4 application timers); mode tight-pool: the same with a timer pool of 2..7 slots which these users can fill completely - a running producer re-uses its slot, so rewriting 1017h must succeed with a full pool; only switching the producer on with a full pool may be refused; mode write-from-client-callback: the node has an SDO client and the application rewrites 1017h through the dictionary API from inside the completion callback of a client transfer, which runs inside a timer step (timeout), inside the handling of a received answer, or inside an NMT reset that gives the transfer up; "
     "histories of up to 300 ops: single ticks, jumps to the next expected heartbeat, SDO/API writes to 1017h (0 or valid), NMT start/stop/pre-operational commands, SDO writes to TPDO event/inhibit time and COB-ID, to 1005h/1006h, TPDO triggers, asynchronous object writes, SYNC and heartbeat frames, application timers created and deleted (only while owned). "
     "Oracle: per tick the number of frames on 700h+id equals the reference schedule t_arm + k*P (t_arm = initialisation or the last accepted write), content = one byte with the NMT state at emission; no heartbeat frame outside a timer step. "
     "Non-trivial: >= 3 heartbeats observed and >= 1 of them after an interfering operation. Distinct = distinct decoded choice sequence.",
     {Mode{"random", one_case, false, 800000, 13000000, 0, 0, 300, 500},
-     Mode{"tight-pool", tight_case, false, 500000, 8000000, 0, 0, 300, 500}},
+     Mode{"tight-pool", tight_case, false, 500000, 8000000, 0, 0, 300, 500},
+     Mode{"write-from-client-callback", one_case, false, 300000, 5000000, 1, 1, 300, 500}},
     {"heartbeat times below one tick are outside the domain (timer creation legitimately fails)", "all generated times are whole numbers of ticks", "an application timer id is deleted only while the application owns it (cyclic, or one-shot not yet fired)"}});
 
 }  // namespace
